@@ -578,6 +578,60 @@ func ruleSIBLIKE(c *Ctx, r *Report) {
 	if len(par) == 0 {
 		r.bad(rule, "param|extract", "-", "the parameterized like function has no regexp path")
 	}
+	// the rewrite applied to the pattern must be the same chain of replacements on both sides
+	chain := func(k string) string {
+		// strip the innermost operand: keep only the ReplaceAll(…,"x","y") wrappers
+		var ops []string
+		for strings.HasPrefix(k, "strings.ReplaceAll(") && strings.HasSuffix(k, ")") {
+			inner := k[len("strings.ReplaceAll(") : len(k)-1]
+			// last two arguments are quoted constants
+			j := strings.LastIndex(inner, ",\"")
+			if j < 0 {
+				break
+			}
+			i2 := strings.LastIndex(inner[:j], ",\"")
+			if i2 < 0 {
+				break
+			}
+			ops = append(ops, inner[i2+1:])
+			k = inner[:i2]
+		}
+		return strings.Join(ops, " ← ")
+	}
+	inlineChain, paramChain := "", ""
+	if e := pt.Eff["expr.Like"]; e != nil && e.Fn != nil {
+		rows, _ := c.successSkeletons(e.Fn)
+		for _, row := range rows {
+			for _, sg := range row.Skel {
+				if !sg.isLit() && strings.HasPrefix(sg.Hole, "strings.ReplaceAll(") {
+					inlineChain = chain(sg.Hole)
+				}
+			}
+		}
+	}
+	for _, b := range dr.RenderParam.Blocks {
+		for _, in := range b.Instrs {
+			if st, ok := in.(*ssa.Store); ok {
+				if k := c.key(st.Val, nil); strings.HasPrefix(k, "strings.ReplaceAll(") {
+					if _, isIdx := st.Addr.(*ssa.IndexAddr); isIdx {
+						paramChain = chain(k)
+					}
+				}
+				if mi, ok := st.Val.(*ssa.MakeInterface); ok {
+					if k := c.key(mi.X, nil); strings.HasPrefix(k, "strings.ReplaceAll(") {
+						paramChain = chain(k)
+					}
+				}
+			}
+		}
+	}
+	if inlineChain == "" || paramChain == "" {
+		r.bad(rule, "rewrite-chain|extract", c.pos(dr.RenderParam.Pos()), fmt.Sprintf("wildcard rewrite not recognised (inline %q, parameterized %q)", inlineChain, paramChain))
+	} else if inlineChain == paramChain {
+		r.ok(rule, "rewrite-chain", c.pos(dr.RenderParam.Pos()), inlineChain)
+	} else {
+		r.bad(rule, "rewrite-chain", c.pos(dr.RenderParam.Pos()), fmt.Sprintf("the wildcard pattern is rewritten differently in the two modes: inline applies [%s], parameterized applies [%s] — the parameter is not the inline constant", inlineChain, paramChain))
+	}
 	if rp.ok {
 		key := "param|" + fnName(dr.RenderParam) + "|rewrite"
 		if rp.minLen-2*rp.offset == rawMin {
